@@ -24,6 +24,7 @@ mod ops_det;
 mod ops_blocks;
 mod ops_c04;
 mod ops_cm;
+mod ops_scan;
 mod ops_c06;
 
 pub const COMPONENTS: &[fn(&str, &[String]) -> Option<String>] = &[
@@ -35,6 +36,7 @@ pub const COMPONENTS: &[fn(&str, &[String]) -> Option<String>] = &[
     ops_c06::dispatch,
     ops_cli::dispatch,
     ops_cm::dispatch,
+    ops_scan::dispatch,
 ];
 
 #[allow(dead_code)]
